@@ -710,6 +710,50 @@ func (in *interp) callBuiltin(caller *frame, callpos token.Pos, fn *ssa.Builtin,
 		}
 		return nil
 
+	case "clear":
+		switch x := args[0].(type) {
+		case *omap:
+			if x != nil {
+				in.noteMapWrite(x)
+				for _, e := range x.ents {
+					if e.deleted {
+						continue
+					}
+					e.deleted = true
+					if e.hasCk {
+						delete(x.idx, e.ck)
+					}
+				}
+				x.live, x.sym = 0, 0
+			}
+		case []value:
+			var et types.Type
+			if ci, ok := caller.cur.(ssa.CallInstruction); ok && len(ci.Common().Args) == 1 {
+				if st, ok := ci.Common().Args[0].Type().Underlying().(*types.Slice); ok {
+					et = st.Elem()
+				}
+			}
+			if et == nil && len(x) > 0 {
+				panic(unsupported("clear: element type unknown"))
+			}
+			for i := range x {
+				z := zero(et)
+				in.noteWrite(&x[i], z)
+				x[i] = z
+			}
+		case *symBytes:
+			n := in.concreteLen(x.n, 33, "clear-len")
+			if n >= 33 {
+				panic(unsupported("clear of more than 32 symbolic bytes"))
+			}
+			if n > 0 {
+				in.writeBuf(x.buf, x.off, mkStr(strings.Repeat("\x00", n)))
+			}
+		default:
+			panic(unsupported(fmt.Sprintf("clear on %T", x)))
+		}
+		return nil
+
 	case "print", "println":
 		return nil
 
